@@ -137,7 +137,7 @@ TrGetOffer ==
     /\ LET r  == ReqOf(E)
            r2 == [r EXCEPT !.types = IF Valid(lay, r) THEN StoredTypes(lay, r) ELSE r.types]
        IN Bind("GetOffer", E.id, req,
-               IF E.res.err THEN offers ELSE offers \cup {[oid |-> E.oid, id |-> E.id, r |-> r2, mut |-> mut]}, mut)
+               IF E.res.err THEN offers ELSE offers \cup {[oid |-> E.oid, id |-> E.id, r |-> r2, mut |-> mut, amb |-> FALSE]}, mut)
 
 TrCommit ==
     /\ E.ev = "Commit"
@@ -153,9 +153,14 @@ TrRealloc ==
            T  == SetOf(E.types)
            ty == IF T = {} THEN TypesOfAll(lay, X) ELSE T
            changed == ~E.res.err /\ E.id \in DOMAIN zone /\ SetOf(E.res.z) # zone[E.id]
+           \* a successful Realloc that changes nothing may or may not count as a re-allocation for the allocator
+           \* (its no-op paths return early, others go through the full path): offers taken before it are
+           \* neither required to be refused nor required to be accepted afterwards
+           nochange == ~E.res.err /\ ~changed
        IN Bind("Realloc", E.id,
                IF changed THEN [req EXCEPT ![E.id].types = @ \cup ty] ELSE req,
-               offers, IF changed THEN mut + 1 ELSE mut)
+               IF nochange THEN {[o EXCEPT !.amb = TRUE] : o \in offers} ELSE offers,
+               IF changed THEN mut + 1 ELSE mut)
 
 TrRelease ==
     /\ E.ev = "Release"
